@@ -83,9 +83,10 @@ class Seq:
 class Str:
     """String / &str: concrete text or the canonical dotted-quad rendering of a 32-bit address term."""
 
-    def __init__(self, text=None, ip=None):
+    def __init__(self, text=None, ip=None, plen=None):
         self.text = text
         self.ip = ip
+        self.plen = plen        # with ip: the text is "<dotted quad>/<plen>" (a prefix written in a configuration)
 
     def __repr__(self):
         return f"Str({self.text!r})" if self.ip is None else f"IpStr({z3.simplify(self.ip)})"
